@@ -136,6 +136,8 @@ def build_model(p):
               max_leaf_size=p['max_leaf_size'], device='cpu', verbose=False, random_state=p['seed'],
               n_threads=p['n_threads'], split_method=p['split_method'], n_trees=p.get('n_trees', 1),
               classification_mode=p.get('classification_mode', 'zero_one'), refill_size=p.get('refill_size', 1500))
+    if p.get('tuning_metric'):
+        kw['tuning_metric'] = p['tuning_metric']
     if p.get('onehot') or p.get('pm1'):
         # float targets that are already one-hot / binarised are accepted together with a classification metric
         kw.update(tuning_metric=p.get('onehot_metric', 'brier'), classification_mode='zero_one')
@@ -365,6 +367,17 @@ def gen_cases(run):
             threads0=2, container_x='tensor', container_y='tensor', n=r.choice([12, 24]), d=r.choice([3, 5]), max_leaf_size=40,
             iters=iters, split_method='pca', seed=r.randint(0, 10 ** 6), dseed=r.randint(0, 10 ** 6),
             classification_mode='zero_one', n_trees=1, bandwidth_mode='constant', y_1d=False, refill_size=1500))
+    # every tuning metric scores the caller's own validation targets (single leaf: nothing is indexed in between; and with splits)
+    mets = [('reg1', 'mae'), ('bin', 'accuracy'), ('reg2', 'rmse'), ('multi', 'logloss'), ('reg1', 'mse'), ('bin', 'auc'), ('reg2', 'mae'),
+            ('multi', 'f1'), ('bin', 'brier'), ('bin', 'f1'), ('multi', 'accuracy'), ('bin', 'logloss')]
+    for k, (task, met) in enumerate(mets if run.tier == 'quick' else mets * 4):
+        single = (k // len(mets)) % 2 == 0
+        cases.append(dict(
+            family='call-sequences', kernel=['l2', 'l1', 'lpq'][k % 3], diag=False, task=task, routing=['hard', 'tuned'][(k // len(mets)) % 2],
+            n_threads=None, env0=None, threads0=2, container_x=['tensor', 'ndarray32'][(k // 2) % 2], container_y=['tensor', 'ndarray32'][k % 2] if task.startswith('reg') else 'tensor',
+            n=24 if single else 60, d=3, max_leaf_size=40 if single or met == 'auc' else 24, iters=1, split_method='pca', seed=r.randint(0, 10 ** 6),
+            dseed=r.randint(0, 10 ** 6), classification_mode='zero_one', n_trees=1, bandwidth_mode='constant', y_1d=False, refill_size=1500,
+            tuning_metric=met))
     # classification with float targets that are already one-hot (multi) / binarised (bin), tensors and float32 arrays
     for k in range(4 if run.tier == 'quick' else 32):
         cases.append(dict(
